@@ -642,9 +642,8 @@ def judge(ctx, name, vw, widths, offsets, shape, seed, amp, res, stats, errTol=1
             continue
         ctx.count("grid_point", nontrivial=False, bucket=d["path"])
         if not abs(d["v"]) < 1 or not d["w"] > 0:
-            ctx.fail_input("point %d: |v|>=1 or w<=0 (T=%g v=%g w=%g) [%s vw=%g]" % (
-                d["k"], d["T"], d["v"], d["w"], tag, vw), dict(rep, k=d["k"]),
-                key="unphysical-state")
+            fail("unphysical-state", 1.0, "point %d: |v|>=1 or w<=0 (T=%g v=%g w=%g) [%s vw=%g]" % (
+                d["k"], d["T"], d["v"], d["w"], tag, vw), dict(rep, k=d["k"]))
             continue
         if d["path"] == "root":
             # contract of the root finder + theorem loop_bracket, on the real run
@@ -652,16 +651,18 @@ def judge(ctx, name, vw, widths, offsets, shape, seed, amp, res, stats, errTol=1
             ctx.count("root_contract_checked", nontrivial=False)
             if not (d["fa"] < 0 <= d["fb"]) or not (min(a, b) <= d["root"] <= max(a, b)) \
                     or abs(d["froot_rel"]) > TOL_CONS:
-                ctx.fail_input("point %d: bracket (%.8g,%.8g) f=(%.3e,%.3e) root %.8g "
-                               "f(root)/|c2|=%.2e violates the sign-change/root contract [%s]"
-                               % (d["k"], a, b, d["fa"], d["fb"], d["root"], d["froot_rel"],
-                                  tag), dict(rep, k=d["k"]), key="root-contract")
+                fail("root-contract", abs(d["froot_rel"]) + 1.0,
+                     "point %d: bracket (%.8g,%.8g) f=(%.3e,%.3e) root %.8g "
+                     "f(root)/|c2|=%.2e violates the sign-change/root contract [%s]"
+                     % (d["k"], a, b, d["fa"], d["fb"], d["root"], d["froot_rel"], tag),
+                     dict(rep, k=d["k"]))
             det = br == "detonation"
             if (det and not d["root"] <= d["tmin"] * (1 + 1e-12)) or \
                     (not det and not d["root"] >= d["tmin"] * (1 - 1e-12)):
-                ctx.fail_input("point %d: root %.8g on the wrong side of the minimiser %.8g for "
-                               "a %s [%s vw=%g]" % (d["k"], d["root"], d["tmin"], br, tag, vw),
-                               dict(rep, k=d["k"]), key="branch-side:" + br)
+                fail("branch-side:" + br, abs(d["root"] - d["tmin"]),
+                     "point %d: root %.8g on the wrong side of the minimiser %.8g for "
+                     "a %s [%s vw=%g]" % (d["k"], d["root"], d["tmin"], br, tag, vw),
+                     dict(rep, k=d["k"]))
         worst["r30"] = max(worst["r30"], abs(d["r30"]))
         if abs(d["r30"]) > TOL_CONS:
             fail("T30:" + d["path"], abs(d["r30"]), "T30 not conserved at grid point %d: residual %.2e |c1| "
